@@ -1,10 +1,11 @@
 """Correspondence cases for sun.py and refraction_at_zenith."""
 import datetime
+import math
 
 import astral
 from astral import Depression, SunDirection
 import astral.sun as sun
-from common import F, FS, I, T, B, E, N, Case, call, wall_us, instant_us, td_us
+from common import F, FS, I, T, TZD, B, E, N, Case, call, wall_us, instant_us, td_us
 import zones
 import gens
 from gens import obs_tok, obs_descr, dir_tok
@@ -16,12 +17,17 @@ def tok_res(st, v, f):
     return f(v) if st == "ok" else E(v)
 
 
-def tinst(v):
-    return T(instant_us(v))
+UTC = datetime.timezone.utc
 
 
-def tpair(v):
-    return "%s %s" % (T(instant_us(v[0])), T(instant_us(v[1])))
+def tinst(v, tz=UTC):
+    return TZD(v, tz)
+
+
+def tpair(v, tz=UTC):
+    if type(v) is not tuple or len(v) != 2:
+        return "X%s" % type(v).__name__
+    return "%s %s" % (TZD(v[0], tz), TZD(v[1], tz))
 
 
 def rematch_tag(v, date, z):
@@ -70,6 +76,13 @@ def gen_hour_angle(rng, n, tier="quick"):
         zen = rng.choice([90.833, 96.0, 102.0, 108.0, 84.0, 94.0, rng.uniform(0, 180),
                           rng.uniform(60, 120)])
         d = rng.choice([RISING, SETTING])
+        if rng.random() < 0.3:
+            # knife edge: the acos argument within ±1e-3 … ±1e-9 of ±1 (event barely exists / barely not)
+            h = rng.choice([-1, 1]) * (1 + rng.choice([-1, 1]) * 10 ** rng.uniform(-9, -3))
+            c = h * math.cos(math.radians(lat)) * math.cos(math.radians(dec)) \
+                + math.sin(math.radians(lat)) * math.sin(math.radians(dec))
+            if -1 <= c <= 1:
+                zen = math.degrees(math.acos(c))
         st, v = call(sun.hour_angle, lat, dec, zen, d)
         yield Case("hour_angle", "hour_angle %s %s %s %s" % (F(lat), F(dec), F(zen), dir_tok(d)),
                    tok_res(st, v, FS), {"lat": lat, "dec": dec, "zenith": zen, "dir": d.name})
@@ -88,6 +101,37 @@ def gen_hour_angle(rng, n, tier="quick"):
 
 
 # ------------------------------------------------------------------ transit and events
+def lon_for_utc_midnight(rng, o, t_utc):
+    """move the observer along its parallel so that the event `t_utc` (computed at o) falls
+    within a few minutes of 00:00 UTC — the UTC-day wrap in time_of_transit"""
+    from astral import Observer
+    tod = t_utc.hour * 60 + t_utc.minute + t_utc.second / 60.0
+    shift = tod / 4.0 if tod < 720 else -(1440 - tod) / 4.0     # degrees east
+    lon = o.longitude + shift + rng.choice([0.0, rng.uniform(-1.5, 1.5), rng.uniform(-0.3, 0.3)])
+    lon = (lon + 180.0) % 360.0 - 180.0
+    return Observer(o.latitude, lon, o.elevation)
+
+
+def directed_transit(rng, o, d, zen, di, wr):
+    """steer a share of the transit cases onto the two knife edges of time_of_transit"""
+    k = rng.random()
+    if k < 0.15:
+        st, t = call(sun.time_of_transit, o, d, zen, di, wr)
+        if st == "ok":
+            return lon_for_utc_midnight(rng, o, t), zen
+    elif k < 0.30 and isinstance(o.elevation, float) and o.elevation <= 0 and not wr:
+        # zenith at which the event barely exists for this latitude and this date's declination
+        from astral.julian import julianday, julianday_to_juliancentury
+        dec = sun.sun_declination(julianday_to_juliancentury(julianday(d) + 0.5))
+        lat = max(-89.8, min(89.8, o.latitude))
+        h = rng.choice([-1, 1]) * (1 + rng.choice([-1, 1]) * 10 ** rng.uniform(-8, -3))
+        c = h * math.cos(math.radians(lat)) * math.cos(math.radians(dec)) \
+            + math.sin(math.radians(lat)) * math.sin(math.radians(dec))
+        if -1 <= c <= 1:
+            return o, math.degrees(math.acos(c))
+    return o, zen
+
+
 def gen_transit(rng, n, tier="quick"):
     for i in range(n):
         o = gens.rand_observer(rng)
@@ -96,6 +140,7 @@ def gen_transit(rng, n, tier="quick"):
                           rng.uniform(60, 120), rng.uniform(0, 180)])
         di = rng.choice([RISING, SETTING])
         wr = rng.random() < 0.7
+        o, zen = directed_transit(rng, o, d, zen, di, wr)
         st, v = call(sun.time_of_transit, o, d, zen, di, wr)
         yield Case("time_of_transit", "time_of_transit %s %s %s %s %s" % (
             obs_tok(o), I(d.toordinal()), F(zen), dir_tok(di), B(wr)),
@@ -107,12 +152,12 @@ def gen_transit(rng, n, tier="quick"):
 def _event_case(rng, name, o, d, z, extra_req, call_fn, descr, fmt=tinst):
     st, v = call(call_fn)
     tags = ()
-    if st == "ok" and fmt is tinst:
+    if st == "ok" and fmt is tinst and type(v) is datetime.datetime and v.tzinfo is not None:
         tags = (rematch_tag(v, d, z),)
     descr = dict(descr)
     descr.update({"observer": obs_descr(o), "date": str(d), "zone": z.describe()})
     return Case(name, "%s %s %s%s %s" % (name, obs_tok(o), I(d.toordinal()), extra_req, z.tok),
-                tok_res(st, v, fmt), descr, tags)
+                fmt(v, z.tzinfo) if st == "ok" else E(v), descr, tags)
 
 
 def gen_events(rng, n, tier="quick"):
@@ -123,6 +168,14 @@ def gen_events(rng, n, tier="quick"):
         d = gens.rand_date(rng, z) if z.iana else d0
         o = gens.rand_observer(rng)
         k = i % 9
+        if rng.random() < 0.12 and k < 6:
+            base0 = {0: lambda: sun.dawn(o, d), 1: lambda: sun.dusk(o, d),
+                     2: lambda: sun.sunrise(o, d), 3: lambda: sun.sunset(o, d),
+                     4: lambda: sun.time_at_elevation(o, 6.0, d, RISING),
+                     5: lambda: sun.time_at_elevation(o, -6.0, d, SETTING)}[k]
+            st0, t0 = call(base0)
+            if st0 == "ok":
+                o = lon_for_utc_midnight(rng, o, t0)
         if rng.random() < 0.3 and k < 6:
             # a zone in which this very event reads ~00:00: retry / "Unable to find" branches
             base = {0: lambda: sun.dawn(o, d), 1: lambda: sun.dusk(o, d),
@@ -151,10 +204,11 @@ def gen_events(rng, n, tier="quick"):
             di = rng.choice([RISING, SETTING])
             wr = rng.random() < 0.7
             st, v = call(sun.time_at_elevation, o, el, d, di, tz, wr)
-            tags = (rematch_tag(v, d, z),) if st == "ok" else ()
+            tags = (rematch_tag(v, d, z),) if st == "ok" and type(v) is datetime.datetime \
+                and v.tzinfo is not None else ()
             yield Case("time_at_elevation", "time_at_elevation %s %s %s %s %s %s" % (
                 obs_tok(o), F(el), I(d.toordinal()), dir_tok(di), z.tok, B(wr)),
-                tok_res(st, v, tinst),
+                tinst(v, tz) if st == "ok" else E(v),
                 {"observer": obs_descr(o), "date": str(d), "zone": z.describe(),
                  "elevation": el, "dir": di.name, "with_refraction": wr}, tags)
         elif k == 6:
@@ -164,8 +218,10 @@ def gen_events(rng, n, tier="quick"):
         else:
             dep = gens.rand_depression(rng)
 
-            def fmt(v):
-                return " ".join(T(instant_us(v[key])) for key in
+            def fmt(v, tzi):
+                if type(v) is not dict or list(v.keys()) != ["dawn", "sunrise", "noon", "sunset", "dusk"]:
+                    return "Xkeys:%s" % (",".join(map(str, v.keys())) if type(v) is dict else type(v).__name__)
+                return " ".join(TZD(v[key], tzi) for key in
                                 ("dawn", "sunrise", "noon", "sunset", "dusk"))
             yield _event_case(rng, "sun", o, d, z, " " + F(dep),
                               lambda: sun.sun(o, d, dep, tz), {"depression": dep}, fmt)
